@@ -156,6 +156,55 @@ func (p *Program) structObligations() *FuncResult {
 		}
 		ex.obls = append(ex.obls, &Obl{Name: "service#struct:parameter_changes_and_genesis_validation_accept_the_same_parameters", Kind: "struct", Goal: goal, Props: []string{"C19", "C20", "C04", "C02"}, Src: src})
 	}
+	// JSON of the context state enums (C19): a proto enum of package types with its own MarshalJSON (it writes names the proto JSON
+	// decoder does not know) must also tell that decoder how to read them back (jsonpb.JSONPBUnmarshaler); otherwise an exported
+	// genesis that contains a request context cannot be imported (D12).
+	{
+		var bad []string
+		n := 0
+		for _, pk := range p.pkgs {
+			if pk.PkgPath != modPath+"/types" {
+				continue
+			}
+			scope := pk.Types.Scope()
+			for _, name := range scope.Names() {
+				tn, ok := scope.Lookup(name).(*types.TypeName)
+				if !ok {
+					continue
+				}
+				named, ok := tn.Type().(*types.Named)
+				if !ok {
+					continue
+				}
+				if b, ok := named.Underlying().(*types.Basic); !ok || b.Kind() != types.Int32 {
+					continue
+				}
+				has := func(recv types.Type, m string) bool {
+					ms := types.NewMethodSet(recv)
+					for i := 0; i < ms.Len(); i++ {
+						if ms.At(i).Obj().Name() == m {
+							return true
+						}
+					}
+					return false
+				}
+				if !has(named, "EnumDescriptor") || !has(named, "MarshalJSON") {
+					continue
+				}
+				n++
+				if !has(types.NewPointer(named), "UnmarshalJSONPB") {
+					bad = append(bad, name+" has MarshalJSON but no UnmarshalJSONPB")
+				}
+			}
+		}
+		goal := tTrue
+		src := fmt.Sprintf("%d proto enums of package types with a custom MarshalJSON: each implements UnmarshalJSONPB, so the proto JSON codec reads back what it writes", n)
+		if len(bad) > 0 {
+			goal = tFalse
+			src += " -- found: " + strings.Join(bad, "; ")
+		}
+		ex.obls = append(ex.obls, &Obl{Name: "service#struct:exported_context_states_can_be_read_back_by_the_json_codec", Kind: "struct", Goal: goal, Props: []string{"C19"}, Src: src})
+	}
 	// module wiring (C05 C11 C17 C19 C20): the AppModule methods the SDK calls hand over to the functions under contract
 	if bad, n := p.moduleWiringProblems(); true {
 		goal := tTrue
